@@ -37,6 +37,8 @@ ExpectedStatus(kind, before, out, async) ==
     ELSE \* REPLACE: the original
          IF out.status = "SUCCESS" THEN "COMPLETE" ELSE "EXECUTABLE"
 
+InFlightOf(kind) == CASE kind = "PLACE" -> "PENDING" [] kind = "CANCEL" -> "CANCELLING"
+                     [] kind = "UPDATE" -> "UPDATING" [] kind = "REPLACE" -> "REPLACING" [] OTHER -> "?"
 P_C12(pre, e) ==
     e.ev = "run" =>
     LET post == e.st
@@ -52,6 +54,9 @@ P_C12(pre, e) ==
            Ck("C12", "NoneStranded",
               \/ post.ord[o].status \in {"EXECUTABLE", "COMPLETE"}
               \/ a.resubmitted                                        \* another attempt is queued
+              \* a further request for the order is outstanding (e.g. a cancel made after the stream had picked the
+              \* asynchronous placement up, before this response): its own handler will move the order on
+              \/ (\E i \in DOMAIN post.pool : o \in SeqToSet(post.pool[i].orders) /\ post.ord[o].status = InFlightOf(post.pool[i].kind))
               \/ ( /\ a.kind = "PLACE" /\ post.ord[o].status = "PENDING" /\ a.answered
                    /\ Has(a.outs, o) /\ (a.outs[o].status = "TIMEOUT" \/ a.outs[o].ostatus = "PENDING") ),
               <<o, a.kind, post.ord[o].status, a.plan>>)
@@ -113,15 +118,15 @@ P_C11(pre, e) ==
           \A k \in DOMAIN e.a.pre :
              Ck("C11", "AdoptedCounts",
                 \* (a runner that carried nothing before the crash - a market merely looked at - need not exist afterwards)
-                \/ (k \notin DOMAIN e.a.post /\ e.a.pre[k].win = 0 /\ e.a.pre[k].lose = 0 /\ e.a.pre[k].nlive = 0)
+                \* (live trades are compared on what the new instance can find: trades with a live bet at the exchange;
+                \*  an order that never got there - still PENDING at the crash - is gone with the old process)
+                \/ (k \notin DOMAIN e.a.post /\ e.a.pre[k].win = 0 /\ e.a.pre[k].lose = 0 /\ e.a.pre[k].nlivex = 0)
                 \/ (k \in DOMAIN e.a.post /\ e.a.post[k].win = e.a.pre[k].win /\ e.a.post[k].lose = e.a.pre[k].lose
-                    /\ (e.a.pre[k].nlive > 0 <=> e.a.post[k].nlive > 0)),
+                    /\ (e.a.pre[k].nlivex > 0 <=> e.a.post[k].nlive > 0)),
                 <<k, e.a.pre[k], IF k \in DOMAIN e.a.post THEN e.a.post[k] ELSE <<>>>>))
 
 -----------------------------------------------------------------------------
 (* live halves of C03 / C10 / C15 / C20 / C13 *)
-InFlightOf(kind) == CASE kind = "PLACE" -> "PENDING" [] kind = "CANCEL" -> "CANCELLING"
-                     [] kind = "UPDATE" -> "UPDATING" [] kind = "REPLACE" -> "REPLACING" [] OTHER -> "?"
 \* (an asynchronous placement is picked up - bet id and status - from the order stream, which may
 \* overtake a retry that the exchange de-duplicates by customer reference)
 InFlightOk(o, kind) == \/ o.status = InFlightOf(kind)
